@@ -117,6 +117,8 @@ def election_case(
     swing_scale=1.0,
     min_nonrep=0,
     unit_types=("precinct", "precinct", "precinct", "county"),
+    min_states=1,
+    state_blocklist_odds=8,
 ):
     pi = draw(st.sampled_from(list(estimators)))
     office = draw(st.sampled_from(list(offices)))
@@ -155,7 +157,7 @@ def election_case(
     if pi == "bootstrap":
         features = ["baseline_normalized_margin"] + features
     fe = {}
-    n_states = draw(st.integers(1, max_states))
+    n_states = draw(st.integers(min(min_states, max_states), max_states))
     if allow_fe:
         fe_choice = draw(st.integers(0, 9))
         if fe_choice == 0:
@@ -205,7 +207,7 @@ def election_case(
     # real district ids are numbers without padding ("1", "10", "100"): one id may be a prefix of another
     dist_names = draw(st.sampled_from([["d1", "d2", "d3", "d9"], ["1", "10", "2", "100"]])) if district else []
     blocked_state = None
-    if allow_state_blocklist and n_states > 1 and draw(st.integers(0, 7)) == 0:
+    if allow_state_blocklist and n_states > 1 and draw(st.integers(0, state_blocklist_odds - 1)) == 0:
         blocked_state = states[-1]
         mp["postal_code_blocklist"] = [blocked_state]
     open_counties = [i for i, (s, _) in enumerate(counties) if s != blocked_state]
